@@ -571,6 +571,24 @@ func ruleKeyFrame(p *Prog, r *Result) {
 					}
 				}
 				r.add(framed, p.FName(fn)+"|group-key", p.InstrPos(ph), "group key components must be framed (delimiter or length), not bare-concatenated: ('a','bc') and ('ab','c') would share a group")
+				// a length written as variable-width text is a frame only if something that is not a digit ends it
+				var seq []ssa.Value
+				for i := len(contrib) - 1; i >= 0; i-- {
+					seq = append(seq, concatPieces(contrib[i], 0)...)
+				}
+				nlen, okDelim := 0, true
+				for i, pc := range seq {
+					if !isTextLength(p, pc) {
+						continue
+					}
+					nlen++
+					if i+1 >= len(seq) || !isNonDigitConst(seq[i+1]) {
+						okDelim = false
+					}
+				}
+				if nlen > 0 {
+					r.add(okDelim, p.FName(fn)+"|group-key|length-delimited", p.InstrPos(ph), "a component length rendered as decimal text is followed by a constant that is not a digit (a bare variable-width length is not self-delimiting: 1|2.. and 12|.. read the same)")
+				}
 			}
 		}
 	}
@@ -691,4 +709,80 @@ func ruleResultIdx(p *Prog, r *Result) {
 		})
 	}
 	r.floor("aggregate result substitutions", n, 2)
+}
+
+
+// concatPieces: the operands of a string concatenation in order.
+func concatPieces(v ssa.Value, d int) []ssa.Value {
+	if bo, ok := v.(*ssa.BinOp); ok && bo.Op == token.ADD && d < 8 {
+		if b, isB := bo.Type().Underlying().(*types.Basic); isB && b.Kind() == types.String {
+			return append(concatPieces(bo.X, d+1), concatPieces(bo.Y, d+1)...)
+		}
+	}
+	return []ssa.Value{v}
+}
+
+// isTextLength: strconv.Itoa / FormatInt / AppendInt (and unsigned twins) of a value computed from len(...).
+func isTextLength(p *Prog, v ssa.Value) bool {
+	c, ok := v.(*ssa.Call)
+	if !ok {
+		return false
+	}
+	g := c.Call.StaticCallee()
+	if g == nil {
+		return false
+	}
+	switch p.qualName(g) {
+	case "strconv.Itoa", "strconv.FormatInt", "strconv.FormatUint", "strconv.AppendInt", "strconv.AppendUint":
+	default:
+		return false
+	}
+	for _, a := range c.Call.Args {
+		if bt, isB := a.Type().Underlying().(*types.Basic); !isB || bt.Info()&types.IsInteger == 0 {
+			continue
+		}
+		if mentions(a, func(x ssa.Value) bool {
+			lc, ok := x.(*ssa.Call)
+			if !ok {
+				return false
+			}
+			b, ok := lc.Call.Value.(*ssa.Builtin)
+			return ok && b.Name() == "len"
+		}, 6) {
+			return true
+		}
+	}
+	return false
+}
+
+func isNonDigitConst(v ssa.Value) bool {
+	// append(acc, ':') passes a one-element array literal
+	if sl, ok := v.(*ssa.Slice); ok {
+		if al, ok := sl.X.(*ssa.Alloc); ok {
+			if at, ok := deref(al.Type()).Underlying().(*types.Array); ok && at.Len() >= 1 {
+				for _, ref := range *al.Referrers() {
+					if ia, ok := ref.(*ssa.IndexAddr); ok {
+						if i, ok := constInt(ia.Index); ok && i == 0 {
+							for _, r2 := range *ia.Referrers() {
+								if st, ok := r2.(*ssa.Store); ok {
+									return isNonDigitConst(st.Val)
+								}
+							}
+						}
+					}
+				}
+			}
+		}
+		return false
+	}
+	alnum := func(b byte) bool {
+		return (b >= '0' && b <= '9') || (b >= 'a' && b <= 'z') || (b >= 'A' && b <= 'Z')
+	}
+	if s, ok := constString(v); ok {
+		return s != "" && !alnum(s[0])
+	}
+	if k, ok := constInt(v); ok {
+		return k >= 0 && k < 256 && !alnum(byte(k))
+	}
+	return false
 }
